@@ -812,6 +812,52 @@ def _cartesian_centre_histories(ck):
                                 "the selection does not depend on which derived quantities were computed before", inputs, sorted(got), sorted(want))
 
 
+def _bounds_then_cross_section(ck):
+    """a cross-section taken after the face bounds exist on the grid (here: correct bounds handed to the public setter, so that the
+    scenario also runs without the JIT) selects the same faces as on a fresh grid: those with an edge whose end nodes lie strictly
+    on opposite sides of the parallel - NOT the faces whose latitude extent merely contains it (an edge between two corners at 60N,
+    40 degrees of longitude apart, bulges to 61.6N)"""
+    import xarray as xr
+    lons, lats = [-40.0, 0.0, 40.0], [20.0, 60.0, 75.0]
+    lon = [lo for la in lats for lo in lons]
+    lat = [la for la in lats for lo in lons]
+    faces = [[0, 1, 4, 3], [1, 2, 5, 4], [3, 4, 7, 6], [4, 5, 8, 7]]
+    m = mg.mk("wide_quads_top_corners_at_60N", lon, lat, faces)
+    P = np.stack(mg.xyz_of(np.array(lon), np.array(lat)), axis=1)
+    bounds = np.zeros((4, 2, 2))
+    for f, row in enumerate(faces):
+        la, lo = [], []
+        for a, b in zip(row, row[1:] + row[:1]):
+            t = np.linspace(0.0, 1.0, 401)[:, None]
+            Q = (1 - t) * P[a][None, :] + t * P[b][None, :]
+            Q /= np.linalg.norm(Q, axis=1, keepdims=True)
+            la.append(np.arcsin(Q[:, 2]))
+            lo.append(np.arctan2(Q[:, 1], Q[:, 0]) % (2 * np.pi))
+        la = np.concatenate(la)
+        bounds[f, 0] = [la.min(), la.max()]
+        lw = np.deg2rad(np.array([lon[v] for v in row])) % (2 * np.pi)
+        bounds[f, 1] = [np.deg2rad(min(lon[v] for v in row)) % (2 * np.pi), np.deg2rad(max(lon[v] for v in row)) % (2 * np.pi)]
+    for latq in (61.0, 40.0, 60.5):
+        ck.cases += 1
+        ck.distinct.add((m["name"], "bounds_then_cross_section", latq))
+        inputs = {"mesh": m["name"], "call": "cross_section.constant_latitude", "args": {"lat": latq},
+                  "history": ["Grid.bounds = <the faces' true latitude / longitude extents>"]}
+        want = sorted(f for f, row in enumerate(faces)
+                      if any((lat[a] - latq) * (lat[b] - latq) < 0 for a, b in zip(row, row[1:] + row[:1])))
+        try:
+            g = grid_of(m)
+            g.bounds = xr.DataArray(bounds.copy(), dims=["n_face", "lat_lon", "min_max"])
+            got = sorted(int(v) for v in np.atleast_1d(g.get_faces_at_constant_latitude(latq)))
+        except Exception as e:  # noqa: BLE001
+            ck.fail(f"raises:constant_latitude:after_bounds_supplied:{type(e).__name__}", f"raises {type(e).__name__}: {str(e)[:140]}",
+                    "the selection does not depend on which derived quantities were computed before", inputs, None, want)
+            continue
+        if got != want:
+            ck.fail("faces_exact:constant_latitude:after_bounds_exist", "with face bounds present on the grid a cross-section selects other "
+                    "faces than those having an edge whose end nodes lie strictly on opposite sides of the parallel",
+                    "for a cross-section every face having an edge whose end nodes lie strictly on opposite sides of the parallel", inputs, got, want)
+
+
 def _coord_scenarios(ck):
     """data carrying a coordinate along the grid dimension: fixed scenarios (all faces in another order; one face)"""
     m = mg.quad_patch(2, 1)
@@ -1242,6 +1288,7 @@ def subsets(tier, seed):
             _threads(ck, src)
     _seam_box(ck)
     _cartesian_centre_histories(ck)
+    _bounds_then_cross_section(ck)
     _coord_scenarios(ck)
     _shipped_edges(ck, rng)
     bound = (f"{done} meshes of the meshgen catalogue (<= {max(m['n_face'] for m in meshes)} faces), per mesh isel by face/node/edge "
